@@ -1,3 +1,3 @@
 From Coq Require Import ExtrOcamlBasic.
 From GS Require Import Num Loops C10_Model.
-Extraction "c10_model.ml" proto_anchor fit_run fit_init fit_trace curve_step pre_para post.
+Extraction "c10_model.ml" proto_anchor fit_run fit_init fit_trace r2_score curve_step pre_para post.
